@@ -338,3 +338,51 @@ def arrivals(w, cons, canon, start=0):
         r['n'] = ex.n
         out.append(r)
     return out
+
+
+# ----------------------------------------------------------------------------- virtual clock for the periodic thread
+PERIODIC_THREAD = 'DevPeriodicSendLoop'
+
+
+class Gate:
+    """the sleeps of the PeriodicReportsHandler thread: it parks here until the driver lets it go on; the virtual clock
+    advances by exactly the requested time (used by c03_alias_impl; c04_periodic_impl has its own copy with hooks)"""
+
+    def __init__(self):
+        self.cv = threading.Condition()
+        self.arrived = 0
+        self.permits = 0
+        self.now = 1000.0
+
+    def sleep(self, dt):
+        if threading.current_thread().name != PERIODIC_THREAD:
+            return
+        with self.cv:
+            self.arrived += 1
+            self.cv.notify_all()
+            self.cv.wait_for(lambda: self.permits > 0)
+            self.permits -= 1
+        self.now += max(dt, 0.0)
+
+    def run(self, k, timeout=120):
+        with self.cv:
+            target = self.arrived + k
+            self.permits += k
+            self.cv.notify_all()
+            return self.cv.wait_for(lambda: self.arrived >= target, timeout=timeout)
+
+    def wait_arrival(self, n=1, timeout=60):
+        with self.cv:
+            return self.cv.wait_for(lambda: self.arrived >= n, timeout=timeout)
+
+    def install(self):
+        import sys
+        import time as _t
+        from sdc11073 import intervaltimer
+        from sdc11073.provider import periodicreports
+        fake = type(sys)('time')
+        fake.__dict__.update(_t.__dict__)
+        fake.sleep = self.sleep
+        periodicreports.time = fake
+        intervaltimer.sleep = self.sleep
+        intervaltimer.perf_counter = lambda: self.now
